@@ -108,10 +108,9 @@ fn check(e: &Expr) -> CaseReport {
 
 pub fn run_check(ctx: &Ctx) {
     ctx.set_rule("expression trees over quantity leaves (compound, derived, prefixed, powered units incl. spellings whose base powers cancel) with * / ^n (n in -3..3 incl. 0) and parentheses; oracle: reference evaluation on (SI value, dimension vector) pairs, the tool's result normalised through the Compound mirror and own arithmetic must match exactly whatever unit it displays; no unit entry with power 0; non-trivial = >=2 operators and a derived or prefixed unit; distinct by query text");
-    let db = shared_db();
     let corpus: Vec<(String, QCase)> = load_corpus("C04");
     let cases: Vec<QCase> = corpus.into_iter().map(|c| c.1).collect();
-    ctx.run_list("corpus", &cases, |c| judge(db, c), |c| to_json(c));
+    ctx.run_list("corpus", &cases, |c| judge(shared_db(), c), |c| to_json(c));
     let n = ctx.tier.pick(100_000u64, 2_000_000);
     ctx.run_gen("generated", tree, n, check, |e| make_case(e).map(|c| to_json(&c)).unwrap_or(Value::Null));
 }
